@@ -24,9 +24,9 @@ def run(repo, chk):
     chk.note_undecided('every earlier hypothesis stays readable (depends on the alignment chosen)',
                        'an empty hypothesis added to an empty network cannot be represented')
     R = Rules(repo, chk)
+    refcheck.run_all(R, repo, chk, 'RECUR', 'cn_ref.py', WHAT, skip=('add_hypothese',))
     R.run('COUNT', count, repo, chk)
     R.run('FACTS', facts, repo, chk)
-    refcheck.run_all(R, repo, chk, 'RECUR', 'cn_ref.py', WHAT, skip=('add_hypothese',))
     chk.expect('COUNT', 4)
     chk.expect('FACTS', 4)
     chk.expect('RECUR', 7)
@@ -116,7 +116,7 @@ def count(repo, chk):
                 stores.append(('new', s))
             if isinstance(s, ast.Assign) and isinstance(s.targets[0], ast.Name) and s.targets[0].id == cn:
                 grow += 1
-                stores.append(('new', s))
+                stores.append(('new', ast.Assign(targets=s.targets, value=fi.flow.inline(s.value, s, stop={cn, cn_ptr, score}), lineno=s.lineno, col_offset=s.col_offset)))
             if isinstance(s, (ast.Assign, ast.AugAssign)):
                 t = s.targets[0] if isinstance(s, ast.Assign) else s.target
                 if isinstance(t, ast.Subscript) and isinstance(t.value, ast.Subscript) and isinstance(t.value.value, ast.Name) and t.value.value.id == cn:
@@ -170,17 +170,19 @@ def facts(repo, chk):
     ok = ok and any(isinstance(x, ast.Call) and call_name(x) == 'get_pivot' for e in piv for x in ast.walk(e))
     chk.ob('FACTS', fi, c, 'alignment source = new transcript, target = pivot of the network', ok, construct='alignment roles')
     # empty network: one column per symbol with the score
-    first = fi.node.body[0]
+    first = next((s for s in fi.node.body if isinstance(s, ast.If) and ' '.join(src(s.test).split()) in ('%s == []' % cn, 'not %s' % cn, 'len(%s) == 0' % cn)), fi.node.body[0])
     ok = isinstance(first, ast.If) and any(isinstance(s, ast.Return) for s in ast.walk(first)) and \
         any(isinstance(x, ast.Dict) and len(x.keys) == 1 and isinstance(x.values[0], ast.Name) and x.values[0].id == score for x in ast.walk(first))
     chk.ob('FACTS', fi, first, 'an empty network becomes one column {symbol: score} per symbol', ok, construct='empty network')
     # epsilon weight of a new column = mean column total of the network BEFORE the addition
-    ok = 'sum((sum(position.values()) for position in %s)) / len(%s)' % (cn, cn) in t
     loop = [l for l in find_loops(fi.node) if isinstance(l.iter, ast.Name)][-1]
     tot = [s for s in fi.node.body if isinstance(s, ast.Assign) and 'sum(' in src(s.value) and '.values()' in src(s.value)]
-    ok = ok and bool(tot) and tot[0].lineno < loop.lineno
+    ok = bool(tot) and tot[0].lineno < loop.lineno and ' / len(%s)' % cn in ' '.join(src(tot[0].value).split()) and ' in %s)' % cn in ' '.join(src(tot[0].value).split())
     chk.ob('FACTS', fi, tot[0] if tot else fi.node, 'epsilon weight of inserted columns = mean column total measured before any update', ok,
            construct='cn_total_weight')
     rets = [s for s in walk_shallow(fi.node) if isinstance(s, ast.Return)]
+    early = [r for r in rets if not any(x is r for x in ast.walk(first)) and r.lineno < loop.lineno]
+    chk.ob('FACTS', fi, early[0] if early else rets[-1], 'nothing but the empty-network case returns before the alignment is applied (an empty hypothesis still adds its weight to every column)', not early,
+           construct='no early return')
     ok = all(isinstance(r.value, ast.Name) and r.value.id == cn for r in rets)
     chk.ob('FACTS', fi, rets[-1], 'the (possibly re-bound) network is what is returned', ok, construct='returns cn')
